@@ -171,7 +171,10 @@ def check(c):
         lg = None
         if c["logger"]:
             lg = Logger(c["logger"]["period"], logger_fn=msgs.append, msg_gen=(lambda s, e, **kw: f"E{e}|{kw['tag']}") if c["logger"]["custom"] else None, tag="T")
-        cbs = [StopAt(), Rec()] + [m[3] for m in mes] + ([oe] if oe is not None else []) + ([saver] if saver else []) + ([lg] if lg else [])
+        busy_ = [gen.busy_callback(hooks=("on_batch_end", "on_epoch_end", "on_epoch_start"))] if (c["seed"] % 4 == 0 and c["E"] - c["se"] <= 6) else []      # re-entrant use (ahead of the recorder, which re-seeds for the evaluators)
+        if busy_:
+            labels.append("busy_callback")
+        cbs = busy_ + [StopAt(), Rec()] + [m[3] for m in mes] + ([oe] if oe is not None else []) + ([saver] if saver else []) + ([lg] if lg else [])
 
         def one_run(se, E):
             record.update(epochs=[], started=[], metrics={}, stats={}, params={}, initial=None)
